@@ -55,6 +55,9 @@ def main(argv):
             if rc:
                 row['error'] = 'worktree: ' + o[-200:]
                 continue
+            env0 = dict(os.environ, PYTHONPATH=wt, PYTHONDONTWRITEBYTECODE='1')
+            rc, o = sh([PY, os.path.join(d, 'demo.py')], cwd=wt, env=env0, timeout=600)
+            row['demo_exit_clean'] = rc
             rc, o = sh(['git', 'apply', os.path.join(d, 'patch.diff')], cwd=wt)
             if rc:
                 row['error'] = 'patch does not apply: ' + o[-200:]
